@@ -66,10 +66,21 @@ CHECKS = {
        "savepoint_refines_spec is FALSE of the code: witnesses savepoint_keeps_writes (K1) and second_rollback_to_fails. Tie: generated transaction programs (BEGIN, DML, "
        "failures, SAVEPOINT/ROLLBACK TO/RELEASE, COMMIT/ROLLBACK, abandoned sessions, autocommit) through Engine.Exec with an explicit *SQLTx and ExecPreparedStmts vs the "
        "Lean driver (per-operation outcome and counters). ORACLE (Go): reference interpreter with textbook savepoints; committed table after every COMMIT/ROLLBACK/"
-       "failure/close; in-tx view through every index = snapshot + own writes; autocommit readers never see uncommitted data; counts and generated keys; 1..4 interleaved sessions.",
-  note=TB + " Modelled rather than verified: isolation between concurrent sessions is the store's MVCC (C05) and is only exercised by the harness; the correspondence runs "
+       "failure/close; in-tx view through every index = snapshot + own writes; autocommit readers never see uncommitted data; counts and generated keys; 1..4 interleaved sessions. "
+       "Second model Sql/CatalogCache.lean (engine-level catalog cache under schedules of several sessions: NewTx read-only/read-write, DDL, DML, COMMIT incl. empty and "
+       "conflicting ones, ROLLBACK, re-open): catalog_cache_facts_match_code (extracted code fragments = what the model mirrors), cache_coherent (a cached catalog is the "
+       "committed one along every schedule), new_tx_sees_committed_catalog, commit_without_ddl_keeps_schema (the COMMIT of a transaction without DDL changes nothing others "
+       "see), committed_ddl_never_undone, necessity witnesses coherence_needs_unconditional_bump / _version_check / _invalidate_on_ddl, finding ro_fill_not_atomic_stale. "
+       "Tie: catalog-cache schedules on the real engine vs driver ops `c13c` (generation seen by every new transaction, cache hit/miss through the sql.CatalogCache*Observer "
+       "hooks, COMMIT ok/conflict). ORACLE 2 (Go, DDL schedules): 2..4 interleaved sessions over a changing schema (CREATE/DROP TABLE, ADD/DROP/RENAME COLUMN, RENAME TO, "
+       "CREATE/DROP INDEX mixed with DML; open EMPTY / query-only / writing transactions of other sessions at every DDL commit; fresh engines and re-opens; observers that do "
+       "not touch the cache): after EVERY commit/rollback/abort/re-open a fresh session's TABLES()/COLUMNS()/INDEXES()/rows = reference to which committed transactions are "
+       "applied in commit order.",
+  note=TB + " Modelled rather than verified: isolation between concurrent sessions is the store's MVCC (C05) and is only exercised by the harness (the catalog-cache model takes "
+       "'a writer whose catalog read-set is stale fails with a read conflict' as given); NewTx is one step of the cache model (the two critical sections of the read-only fill are "
+       "the subject of ro_fill_not_atomic_stale, not driven by the harness); the correspondence runs "
        "single-session programs on tables without secondary indexes (the in-tx index view is finding R1); pkg/server/sessions/internal/transactions is a Go internal package "
-       "(not importable) and the PostgreSQL wire front-end is not driven. Known signatures for root causes R1, R4, R5 (K1), R6, R7, R8, R9 (known_findings.json).",
+       "(not importable) and the PostgreSQL wire front-end is not driven. Known signatures for root causes R1, R2, R4, R5 (K1), R6, R7, R8, R9, R14–R17 (known_findings.json).",
   technique="Lean 4 proof (case analysis on the transaction interpreter, simulation against the reference interpreter, concrete witnesses by decide) + differential correspondence + reference-interpreter oracle",
   design="7/C13"),
  "C12": dict(
@@ -396,8 +407,14 @@ CHECKS = {
   text="Lean theorems over an arbitrary hash (no injectivity assumed; conclusions are Good ∨ explicit collision): inclusion and last-inclusion "
        "verifier soundness against the RFC-6962 reference tree for every size/position/adversarial proof, guard theorems, plus (as they land) root "
        "equality, completeness and consistency soundness. The models mirror ahtree/htree statement by statement and are tied to /repo by byte-exact "
-       "correspondence of roots, proofs and verifier verdicts (real + mutated proofs) and by an independent reference Merkle tree oracle.",
-  note=TB + " Modelled rather than verified: file layout, caches, commit-log durability of ahtree (abstracted to logical logs + an explicit 'persisted' copy).",
+       "correspondence of roots, proofs and verifier verdicts (real + mutated proofs) and by an independent reference Merkle tree oracle. "
+       "Histories include FAILING operations: the ahtree runs on its real multiapp files behind a fault-injecting wrapper (one Sync/Flush/Append/SetOffset/ReadAt/Size "
+       "call of the payload, digest or commit log fails once inside Append/ResetSize/Sync/DataAt/RootAt/proofs; sync thresholds 1..4; deterministic sweep over the fault "
+       "points of Append + random lives); oracle: an operation that returned an error leaves Size/Root/RootAt/DataAt/proofs equal to the reference tree over the "
+       "surviving payloads, later appends get the next index, Close/Open preserves it. Lean: aht_history_with_failures / aht_history_roots / ahtfile_history_roots "
+       "(failed steps are the identity of the tree model; any interleaving yields the reference tree of the survivors).",
+  note=TB + " Modelled rather than verified: file layout, caches, commit-log durability of ahtree (abstracted to logical logs + an explicit 'persisted' copy); "
+       "that a failed Append/ResetSize/Sync is the identity on the model state is read off the Go error paths and tied by the driver ops aht.appendfail/resetfail/syncfail/readfail.",
   technique="Lean 4 proof (induction over the reference tree) + differential correspondence against the real ahtree/htree",
   design="7/C08"),
 }
